@@ -306,6 +306,7 @@ def run(ctx):
         ctx.fail('a zero-length sentence inside a batch makes the parser hang', {'batch': ['sentence', 'EMPTY', 'sentence']},
                  fingerprint=['zero-length'])
     ctx.extra['pool_runs'] = pool_runs
+    glue_checks.full_stack_suite(ctx, ctx.budget(60, 600), batch=True)
     ctx.sample({'batch_sizes': 'sentences 2..7', 'variants': ['one call', 'permuted', 'subset', 'repeated', 'chunked']})
     ctx.extra['skipped_unsupported'] = common.compare_with_model(ctx, cases)
     common.conclude(ctx)
